@@ -52,7 +52,7 @@ for sid in ids:
     finally:
         sh("git -C %s checkout -- ." % REPO)
     det = [p for p, o in outcome.items() if o["exit"] == 1]
-    meta["detected_by"] = {"tier": tier, "checks": outcome, "caught": bool(det)}
+    meta["detected_by" if tier == "quick" else "detected_by_thorough"] = {"tier": tier, "checks": outcome, "caught": bool(det)}
     json.dump(meta, open(os.path.join(d, "meta.json"), "w"), indent=1)
     rows.append((sid, meta["property"], "caught" if det else ("inconclusive" if any(o["exit"] == 2 for o in outcome.values()) else "missed"),
                  ", ".join(h for o in outcome.values() for h in o["harnesses"])))
